@@ -27,7 +27,7 @@ def mux_roles(rep, rule, c, half):
             if inner:
                 found.append((L, it[1][1], inner))
     if len(found) != 1:
-        rep.bad(rule, site, f"loop over <shadow>.chunks() driving element.{stb}",
+        rep.unk(rule, site, f"loop over <shadow>.chunks() driving element.{stb}",
                 f"found {len(found)} such loops")
         return None
     r = MuxRoles()
@@ -37,7 +37,7 @@ def mux_roles(rep, rule, c, half):
     # inner loop over the registers sharing the chunk
     inner_loops = {fr[1] for d in stb_drivers for fr in d.gen if fr[0] == 'for'} - {r.Lc.id}
     if len(inner_loops) != 1:
-        rep.bad(rule, site, "loop over <chunk>.registers()", f"found {len(inner_loops)} inner loops")
+        rep.unk(rule, site, "loop over <chunk>.registers()", f"found {len(inner_loops)} inner loops driving the register strobe; the template is not the recognised one")
         return None
     r.Lr = c.t.loops[next(iter(inner_loops))]
     want_iter = c.norm(('call', ('attr', r.chunk, 'registers'), (), ()))
@@ -58,7 +58,7 @@ def mux_roles(rep, rule, c, half):
                 if fr[0] == 'case':
                     sids.add((fr[1], tuple(c.norm(p) for p in fr[2])))
     if len(sids) != 1:
-        rep.bad(rule, site, "one Case per (chunk, register)", f"found {len(sids)} distinct Case patterns in the register loop")
+        rep.unk(rule, site, "one Case per (chunk, register)", f"found {len(sids)} distinct Case patterns in the register loop")
         return None
     sid, pats = next(iter(sids))
     r.sid = sid
@@ -113,6 +113,7 @@ def run(rep, idx, tier):
     rep.require("C04.3", 3)
     rep.require("C04.4", 1)
     rep.require("C04.5", 2)
+    rep.require("C04.7", 3)
     c = get_ctx(idx, "csr:Multiplexer.elaborate")
     rep.analysed(c.fi.site)
     rep.count("drivers", len(c.t.drivers))
@@ -164,3 +165,5 @@ def run(rep, idx, tier):
                      "Mux(chunk.r_en, chunk.data, 0)", env, r.Lc)
     # C04.5 population
     shadow_population(rep, "C04.5", c, r.SH, "readable")
+    # C04.7 the address hash that shares chunks between registers is its own inverse on the low bits
+    glue.shadow_hash(rep, idx, "C04.7")
